@@ -327,6 +327,134 @@ Proof.
   - exists 1065. repeat apply conj; [right; right; left; reflexivity|lia|cbn; lia].
 Qed.
 
+(* ================================================================ EXTENSION X4: C10 across restarts of Watcher.Run ================================
+   Model: model/EvmGuardianSet.v.  The Watcher value outlives Run: the supervisor re-enters `w.Run` on the same value after every
+   errC (failed guardian-set fetch, failed block-time lookup of a log, three failed polls, subscription error).  What survives:
+   w.pending and w.currentGuardianSet.  What is re-created: w.ethConn = a NEW BlockPollConnector whose poller is OFF (enabled =
+   false) until the next log is inserted, and whose lastBlock is the node's head at that moment.  Operations: GFetch (ticker
+   fetch of the guardian set), GRestart (Run re-entered; its initial fetch), GEvm (log / head / re-observation as above), GPoll
+   (one poller tick: the heads it publishes are scanned).  [gtrace] = the EVM-watcher operations a history executes. *)
+From WH Require Import gen.ExtractedEvmGs model.EvmGuardianSet proofs.EvmGuardianSetProofs.
+
+(* SAFETY survives any number of restarts, fetches and poller ticks: forwarded => a delivered log with that key, depth reached at
+   the scanned head (uint64 arithmetic of the source, no range hypothesis), receipt of THAT scan error-free / status 1 / same block *)
+Theorem C10_restart_forward_safe : forall (K : Type) c (ops : list (gop K)) k m,
+  In (WEvm (Confirmed k m)) (concat (snd (grun c winit ops))) ->
+  exists e tm n safe orc,
+    In (GEvm (OLog e (Some tm))) ops /\ key_of e = k /\ m = msg_of (g_evm c) e tm /\
+    In (OHead n safe orc) (gtrace c winit ops) /\
+    thr_of (c_wait (g_evm c)) safe (pm_of (g_evm c) e tm) <= u64 n /\
+    orc k = mkAns (Some (1, e_bh e)) ENone.
+Proof. intros K. exact restart_forward_safe. Qed.
+
+Theorem C10_restart_forward_safe_math : forall (K : Type) c (ops : list (gop K)) k m,
+  (forall e tm, In (GEvm (OLog e (Some tm))) ops -> wf_ev e) ->
+  (forall n safe orc, In (OHead n safe orc) (gtrace c winit ops) -> 0 <= n < two64) ->
+  In (WEvm (Confirmed k m)) (concat (snd (grun c winit ops))) ->
+  exists e tm n safe orc,
+    In (GEvm (OLog e (Some tm))) ops /\ key_of e = k /\ m = msg_of (g_evm c) e tm /\
+    In (OHead n safe orc) (gtrace c winit ops) /\
+    e_h e + evm_expected (c_wait (g_evm c)) safe (e_cl e) <= n /\
+    orc k = mkAns (Some (1, e_bh e)) ENone.
+Proof. intros K. exact restart_forward_safe_math. Qed.
+
+Theorem C10_restart_at_most_once : forall (K : Type) c (ops : list (gop K)) s k,
+  NoDup (keys (w_pending s)) -> no_relog k (gtrace c s ops) ->
+  (length (filter (confirmedb k) (evm_outs (snd (grun c s ops)))) <= 1)%nat.
+Proof. intros K. exact restart_at_most_once. Qed.
+
+Theorem C10_restart_pending_keys_distinct : forall (K : Type) c (ops : list (gop K)), NoDup (keys (w_pending (fst (grun c winit ops)))).
+Proof. intros K. exact restart_pending_keys_distinct. Qed.
+
+(* the executed operations change w.pending exactly as in the restart-free model: every theorem above about `run` applies to
+   `gtrace` *)
+Theorem C10_restart_refines_watcher : forall (K : Type) c (ops : list (gop K)) s,
+  w_pending (fst (grun c s ops)) = fst (run (g_evm c) (w_pending s) (gtrace c s ops)) /\
+  evm_outs (snd (grun c s ops)) = filter not_died (concat (snd (run (g_evm c) (w_pending s) (gtrace c s ops)))).
+Proof. intros K. exact grun_evm. Qed.
+
+(* LIVENESS after a restart.  (1) The new poller is off although w.pending still holds the entries of the previous Run: while no
+   further log arrives (poller ticks, guardian-set fetches, re-observation requests, more restarts - whatever the chain does) no
+   head is processed and nothing pending is forwarded, dropped or abandoned.  Whether that is a violation of C10's "forwarded
+   exactly once after the depth is reached" is reported, not alarmed (reports/report_ext_X4.md). *)
+Theorem C10_restart_stalls_until_next_log : forall (K : Type) c s (a : gans K) h0 (ops : list (gop K)),
+  Forall no_log_no_head ops ->
+  let s1 := fst (gstep c s (GRestart a h0)) in
+  w_pending (fst (grun c s1 ops)) = w_pending s /\ w_enabled (fst (grun c s1 ops)) = false /\
+  (forall k x, In x (evm_outs (snd (grun c s1 ops))) -> decisionb k x = false).
+Proof.
+  intros K c s a h0 ops Hq s1.
+  destruct (restart_stalls_until_next_log c ops s1 eq_refl Hq) as [H1 [H2 H3]].
+  repeat apply conj; [rewrite H1; reflexivity|exact H2|exact H3].
+Qed.
+
+(* (2) the next log of ANY transaction switches the poller on, and the first tick that then publishes a head at or beyond the
+   depth forwards the left-over entry if its receipt is unchanged - however far the chain has advanced meanwhile *)
+Theorem C10_restart_resumes_after_next_log : forall (K : Type) c s e tm k p answers orc n sf last' err,
+  let s1 := fst (@gstep K c s (GEvm (OLog e (Some tm)))) in
+  NoDup (keys (w_pending s)) -> find k (w_pending s1) = Some p -> wf_p p ->
+  poll_tick true (w_last s1) answers = (last', [(n, sf)], err) ->
+  0 <= n < two64 -> p_height p + expected_of (c_wait (g_evm c)) sf p <= n ->
+  orc k = mkAns (Some (1, k_bh k)) ENone ->
+  In (WEvm (Confirmed k (p_msg p))) (snd (@gstep K c s1 (GPoll answers orc))) /\
+  find k (w_pending (fst (@gstep K c s1 (GPoll answers orc)))) = None.
+Proof.
+  intros K c s e tm k p answers orc n sf last' err s1 Hnd Hf Hp Hpt Hn Hd Hg.
+  apply (restart_resumes_after_next_log c s1 k p answers orc n sf last' err); try assumption.
+  - reflexivity.
+  - subst s1. cbn [gstep evm_step step fst w_pending]. apply nodup_insert. exact Hnd.
+Qed.
+
+(* (3) a log whose block-time lookup fails makes Run return before anything is recorded: the message is never forwarded unless the
+   node announces the log again - although its transaction stays in its block and no receipt lookup ever failed *)
+Theorem C10_log_lost_when_block_time_lookup_fails : forall (K : Type) c s e (ops : list (gop K)),
+  NoDup (keys (w_pending s)) -> find (key_of e) (w_pending s) = None -> no_relog (key_of e) (gtrace c s ops) ->
+  @gstep K c s (GEvm (OLog e None)) = (s, [WDied]) /\
+  forall x, In x (evm_outs (snd (grun c s (GEvm (OLog e None) :: ops)))) -> aboutb (key_of e) x = false.
+Proof. intros K. exact log_lost_when_block_time_lookup_fails. Qed.
+
+(* ---------------------------------------------------------------- concrete history (keys are integers here) *)
+Definition exg : gcfg := mkGCfg exc true.
+Definition ex_ans (i : Z) (ks : list Z) : gans Z := mkGAns (Some i) (fun j => if j =? i then Some ks else Some []).
+Definition ex_evA : ev := mkEv 1 1 1000 1 1 2 8 2 1.          (* log A, block 1000, level 2 *)
+Definition ex_evB : ev := mkEv 2 2 1001 1 2 1 9 2 2.          (* log B: its block-time lookup fails *)
+Definition ex_evC : ev := mkEv 3 3 1100 1 3 1 9 2 3.          (* log C, after the restart *)
+(* start; log A; upgrade seen by the next tick; log B kills Run; restart (no new set: index unchanged); the chain runs on: polls
+   and a re-observation request change nothing; log C; one poll publishes head 1200: A is forwarded, C too; B never *)
+Definition ex_ghist : list (gop Z) :=
+  [GRestart (ex_ans 0 [11; 12]) 990; GEvm (OLog ex_evA (Some 1600000007)); GFetch (ex_ans 1 [11; 12; 13]);
+   GEvm (OLog ex_evB None);
+   GRestart (ex_ans 1 [11; 12; 13]) 1050; GPoll [Some 1150] ex_ok; GFetch (ex_ans 1 [11; 12; 13]); GPoll [Some 1160] ex_ok;
+   GEvm (OLog ex_evC (Some 1600000021)); GPoll [Some 1200] ex_ok].
+
+Example C10_example_restart :
+  let r := grun exg winit ex_ghist in
+  sent (snd r) = [([11; 12], 0); ([11; 12; 13], 1)] /\
+  nth 3 (snd r) [] = [WDied] /\
+  w_pending (fst (grun exg winit (firstn 8 ex_ghist))) = [(key_of ex_evA, pm_of exc ex_evA 1600000007)] /\
+  w_enabled (fst (grun exg winit (firstn 8 ex_ghist))) = false /\
+  evm_outs (snd (grun exg winit (firstn 8 ex_ghist))) = [] /\
+  (forall k m, In (WEvm (Confirmed k m)) (last (snd r) []) <-> (k = key_of ex_evA /\ m = msg_of exc ex_evA 1600000007) \/ (k = key_of ex_evC /\ m = msg_of exc ex_evC 1600000021)) /\
+  w_pending (fst r) = [] /\
+  (forall x, In x (evm_outs (snd r)) -> aboutb (key_of ex_evB) x = false).
+Proof.
+  cbv zeta. repeat apply conj; try (vm_compute; reflexivity).
+  - intros k m. vm_compute. split.
+    + intros H. repeat (destruct H as [H|H]; [try discriminate H; inversion H; subst; (left; split; reflexivity) || (right; split; reflexivity)|]). contradiction.
+    + intros [[H1 H2]|[H1 H2]]; subst; [right; right; right; left; reflexivity|right; left; reflexivity].
+  - intros x H. vm_compute in H. repeat (destruct H as [H|H]; [subst x; reflexivity|]). contradiction.
+Qed.
+
+(* the hypotheses of the stall theorem and of the lost-log theorem hold in that history *)
+Example C10_example_restart_hypotheses :
+  Forall (@no_log_no_head Z) [GPoll [Some 1150] ex_ok; GFetch (ex_ans 1 [11; 12; 13]); GPoll [Some 1160] ex_ok] /\
+  no_relog (key_of ex_evB) (gtrace exg (fst (grun exg winit (firstn 3 ex_ghist))) (skipn 4 ex_ghist)).
+Proof.
+  split.
+  - repeat constructor.
+  - intros o H. vm_compute in H. repeat (destruct H as [H|H]; [subst o; reflexivity|]). contradiction.
+Qed.
+
 Print Assumptions C10_scan_forward_safe.
 Print Assumptions C10_scan_step_safe.
 Print Assumptions C10_reobserve_safe.
@@ -344,3 +472,11 @@ Print Assumptions C10_polled_head_expected.
 Print Assumptions C10_end_to_end.
 Print Assumptions C10_original_order_refuted.
 Print Assumptions C10_range_hypothesis_needed.
+Print Assumptions C10_restart_forward_safe.
+Print Assumptions C10_restart_forward_safe_math.
+Print Assumptions C10_restart_at_most_once.
+Print Assumptions C10_restart_pending_keys_distinct.
+Print Assumptions C10_restart_refines_watcher.
+Print Assumptions C10_restart_stalls_until_next_log.
+Print Assumptions C10_restart_resumes_after_next_log.
+Print Assumptions C10_log_lost_when_block_time_lookup_fails.
